@@ -147,6 +147,19 @@ class Inflater:
         if self.d.unused_data or self.d.eof:
             self.broken = True
             raise zlib.error("deflate stream ended inside a message (BFINAL block or trailing data)")
+        # payload + 00 00 ff ff must be COMPLETE deflate blocks (RFC 7692 7.2.1: the sender removes the tail of
+        # an empty stored block it has flushed).  zlib does not tell whether it stopped at a block boundary, so
+        # a copy of the inflater is offered one more empty stored block: at a boundary that yields nothing; in
+        # the middle of a block (e.g. an EMPTY payload with RSV1: '00 00 ff ff' is an unfinished stored-block
+        # header that would swallow the next message) it yields data or an error.
+        probe = self.d.copy()
+        try:
+            extra = probe.decompress(b"\x00\x00\x00\xff\xff")
+        except zlib.error:
+            extra = None
+        if extra != b"" or probe.eof or probe.unused_data:
+            self.broken = True
+            raise zlib.error("message does not end at a deflate block boundary (payload %d octets)" % len(data))
         return out
 
 
@@ -366,6 +379,13 @@ def selfcheck():
     try:
         inf2.inflate(bytes.fromhex("f200110000"))
         raise AssertionError("context must have been dropped")
+    except zlib.error:
+        pass
+    inf3 = Inflater(False, 15)
+    assert inf3.inflate(bytes.fromhex("00")) == b""            # RFC 7692 7.2.3.6: the empty message
+    try:
+        inf3.inflate(b"")
+        raise AssertionError("an empty RSV1 payload is not a complete deflate block")
     except zlib.error:
         pass
     for ln in (0, 1, 2, 3, 4, 6, 7, 8, 100, 65536):
